@@ -19,6 +19,7 @@ S14 inside a collection an unspecified number type is only re-typed in place to 
 S15 zero-sized types and empty arrays: no division by a type width, no trapping `element count - constant` in the lowering
 S16 a function whose parameters have no bits is refused before the circuit is built (`some input bit`)
 S17 a re-typed match / if / array literal takes over the type of its branches / elements only when all of their types compared equal
+S19 the split of a single array parameter into per-element parties covers all three array type variants
 S18 the Range arm of constrain_type re-types an untyped range for signed as well as for unsigned expected element types
 S12 the number type stored in a Range node (which the lowering sizes the elements with) follows the re-typing of the range
 """
@@ -889,5 +890,44 @@ def rule_s18(ctx):
     return res
 
 
+def rule_s19(ctx):
+    """`one input party per parameter (one per element when the only parameter is an array)`: the three spellings of an array type
+    (`[T; 3]`, `[T; N]`, `[T; const { N + 1 }]`) are siblings; where the parameter wiring singles out arrays it has to single out all
+    three, otherwise `pub fn main(x: [u8; const { 2 + 1 }])` gets one party of 24 bits."""
+    res = RuleResult("S19", "the split of a single array parameter into one party per element covers Array, ArrayConst and ArrayConstExpr alike")
+    f = ctx.find_fn("compile_with_constants", None, "compile.rs")
+    body = ctx.body(f["id"])
+    seen = 0
+    for b in range(body.n):
+        if body.blocks[b]["cleanup"]:
+            continue
+        info = body.switch_info(b)
+        if not (info and info[2] == "ast::Type"):
+            continue
+        t = body.term(b)
+        listed = {info[1].get(v) for v, _ in t["targets"]}
+        arrays = {n for n in info[1].values() if n.startswith("Array")}
+        if not (listed & arrays):
+            continue
+        seen += 1
+        missing = sorted(arrays - listed) if len(listed) < len(info[1]) else []
+        # (an exhaustive switch lists every variant; then the arm bodies decide - compare the targets instead)
+        if not missing and len(listed) == len(info[1]):
+            tg = {info[1][v]: x for v, x in t["targets"]}
+            other = {x for n, x in tg.items() if n not in arrays}
+            missing = sorted(n for n in arrays if tg[n] in other)
+        if missing:
+            res.bad(Finding("S19", f["id"], "array parameters of type %s are not split into one party per element" % " / ".join(missing),
+                            "the parameter wiring treats %s like a non-array type: a single parameter `[u8; const { 2 + 1 }]` becomes one party of 24 bits where `[u8; 3]` gives three of 8" % " / ".join(missing), t["sp"]))
+        else:
+            res.ok({"switch": "line %d" % t["sp"][1], "verdict": "all array type variants take the per-element path"})
+    if not seen:
+        if any(mir.last_seg(mir.callee(t) or "") == "unwrap_array_size" for _, t in body.calls()):
+            res.ok({"verdict": "array parameters are recognised through unwrap_array_size (which knows all three variants)"})
+        else:
+            raise AnchorMissing("S19: compile_with_constants does not single out array parameters")
+    return res
+
+
 def run(ctx):
-    return ctx.run_rules([rule_s1, rule_s2, rule_s3, rule_s4, rule_s6, rule_s7, rule_s8, rule_s9, rule_s10, rule_s11, rule_s12, rule_s13, rule_s14, rule_s15, rule_s16, rule_s17, rule_s18])
+    return ctx.run_rules([rule_s1, rule_s2, rule_s3, rule_s4, rule_s6, rule_s7, rule_s8, rule_s9, rule_s10, rule_s11, rule_s12, rule_s13, rule_s14, rule_s15, rule_s16, rule_s17, rule_s18, rule_s19])
